@@ -88,10 +88,38 @@ func typeAssertNative(i *interpreter, instr *ssa.TypeAssert, itf iface, nt *nati
 			return itf
 		}
 	}
+	// concrete asserted type: match the real dynamic type of the native value by name
+	if n, isN := itf.v.(native); isN && !ok {
+		if _, isI := instr.AssertedType.Underlying().(*types.Interface); !isI {
+			if reflectTypeName(reflect.TypeOf(n.v)) == types.TypeString(instr.AssertedType, nil) {
+				if instr.CommaOk {
+					return tuple{value(n), true}
+				}
+				return n
+			}
+		}
+	}
 	if !instr.CommaOk {
 		panic(targetPanic{iface{i.runtimeErrorString, fmt.Sprintf("interface conversion: interface is %s, not %s", nt, instr.AssertedType)}})
 	}
 	return tuple{zero(instr.AssertedType), false}
+}
+
+// reflectTypeName renders a reflect.Type the way go/types prints the same type with full package paths.
+func reflectTypeName(t reflect.Type) string {
+	if t == nil {
+		return "nil"
+	}
+	switch t.Kind() {
+	case reflect.Ptr:
+		return "*" + reflectTypeName(t.Elem())
+	case reflect.Slice:
+		return "[]" + reflectTypeName(t.Elem())
+	}
+	if t.PkgPath() != "" {
+		return t.PkgPath() + "." + t.Name()
+	}
+	return t.String()
 }
 
 // ---- conversion between interpreter values and reflect values
